@@ -272,6 +272,9 @@ func runC13(c *core.Case) *core.Result {
 		if !w.idle() {
 			return c.Inconclusive("idle")
 		}
+		if f := e.d.TransitionFault(); f != "" {
+			return c.Violation("false-state-report", "%s of a %s: %s", mode, typ, f)
+		}
 		errs, trs, _ := e.d.Handler()
 		errs = errs[e.errBase:]
 		nSub := 0
